@@ -62,6 +62,13 @@ def is_in_standard_format(input):
 '''
 
 
+def col_access(t):
+    """frame.NAME == frame['NAME'] for the upper-case gene columns."""
+    if head(t) == "attr" and t[2] in ("TRAV", "TRBV"):
+        return ("sub", t[1], const(t[2]))
+    return t
+
+
 def scope_terms(r, cname):
     cq = T + cname
     out = {}
@@ -114,6 +121,9 @@ def run(r):
         chain_attr = "alpha_weight" if col.endswith("A") else "beta_weight"
         cdr_attr = f"cdr{col[3]}_weight"
         ok, found = False, show(t, 120)
+        if any(head(x) in ("after", "phi", "loopret", "iter") for x in walk(t)):
+            rep.require(False, f"C09-WT: {q}: the weight selection for column {col} does not fold to a product (loop-carried value); cannot decide")
+            continue
         if len(set(cd)) == 1 and not any(head(x) == "ite" for x in walk(t)):
             want = ("bin", "*", ("bin", "*", cd[0], ("attr", ("attr", selft, "_chain_weights"), chain_attr)), ("attr", ("attr", selft, "_cdr_weights"), cdr_attr))
             ok = ctx.rf(t).same(ctx.rf(want))
@@ -157,31 +167,53 @@ def run(r):
     compare_function(r, "C09-SUM", base + "calc_cdist_matrix", SPEC, "result = sum over all columns in scope of the per-column weighted cdist; V-gene CDRs expanded (on both tables) iff the loop scope is ALL", eq=eqs, key="sum over columns")
     compare_function(r, "C09-CDR", base + "_get_cdr1_from_v_gene_if_possible", SPEC, "a CDR loop is read from tidytcells' sequence data of the V allele, '' when the allele has no such loop", eq=eqs, key="loop lookup")
     e_s = r.A.summary(base + "_expand_v_gene_cdrs")
-    rep.analysed(base + "_expand_v_gene_cdrs", base + "_get_cdrs_from_v_genes")
+    rep.analysed(base + "_expand_v_gene_cdrs")
     dfp = ("param", e_s.params[1][0])
-    st = {tuple(x[2] for x in strip(e["index"])[1]) if head(strip(e["index"])) == "list" else None: strip_all(e["value"]) for e in e_s.events_of("setitem")}
     copy = ("call", ("attr", dfp, "copy"), (), ())
-    want = {("CDR1A", "CDR2A"): ("call", ("attr", selft, "_get_cdrs_from_v_genes"), (("attr", copy, "TRAV"),), ()), ("CDR1B", "CDR2B"): ("call", ("attr", selft, "_get_cdrs_from_v_genes"), (("attr", copy, "TRBV"),), ())}
-    alt = {k: subst(v, {("attr", copy, "TRAV"): ("sub", copy, const("TRAV")), ("attr", copy, "TRBV"): ("sub", copy, const("TRBV"))}) for k, v in want.items()}
-    rep.ob("C09-CDR", base + "_expand_v_gene_cdrs", set(st) == set(want) and all(st[k] in (want[k], alt[k]) for k in want), "CDR1A/CDR2A come from the row's TRAV allele and CDR1B/CDR2B from its TRBV allele, written to a copy", where_of(r.P, e_s.func, e_s.func.node),
-           expected="copy[[CDR1A, CDR2A]] = cdrs(copy.TRAV); copy[[CDR1B, CDR2B]] = cdrs(copy.TRBV)", found="; ".join(f"{k} <- {show(v, 60)}" for k, v in st.items()), key="expansion stores")
-    rep.ob("C09-CDR", base + "_expand_v_gene_cdrs", strip_all(e_s.ret) == copy, "the expanded copy is returned", where_of(r.P, e_s.func, e_s.func.node), expected="df.copy()", found=show(e_s.ret, 40), key="expansion result")
-    g_s = r.A.summary(base + "_get_cdrs_from_v_genes")
-    vg = ("param", g_s.params[1][0])
-    attrs = {e["name"]: strip_all(e["value"]) for e in g_s.events_of("setattr")}
-    okc = set(attrs) == {"CDR1X", "CDR2X"}
-    for nm, loop in (("CDR1X", "CDR1-IMGT"), ("CDR2X", "CDR2-IMGT")):
-        v = attrs.get(nm)
-        ok1 = v is not None and head(v) == "call" and head(v[1]) == "attr" and v[1][2] == "map" and v[1][1] == vg and len(v[2]) == 1 and head(v[2][0]) == "lam"
-        if ok1:
-            lam = v[2][0]
-            body = lam[3]
-            ok1 = head(body) == "call" and body[1] == ("attr", selft, "_get_cdr1_from_v_gene_if_possible") and tuple(body[2]) == (("lparam", lam[1], lam[2][0][0]), const(loop))
-        okc = okc and ok1
-    cols = strip_all(g_s.ret)
-    okcols = head(cols) == "call" and cols[1] == ("glob", "pandas.DataFrame") and dict(cols[3]).get("columns") == ("list", (const("CDR1X"), const("CDR2X")))
-    rep.ob("C09-CDR", base + "_get_cdrs_from_v_genes", okc and okcols, "first column = CDR1-IMGT of each allele, second = CDR2-IMGT, cell by cell (Series.map)", where_of(r.P, g_s.func, g_s.func.node),
-           expected="CDR1X <- map(CDR1-IMGT), CDR2X <- map(CDR2-IMGT), in that column order", found="; ".join(f"{k} <- {show(v, 70)}" for k, v in attrs.items()), key="loop columns")
+    w_e = where_of(r.P, e_s.func, e_s.func.node)
+    # value stored into each new column, helper methods resolved:  column -> term
+    colvals, undecided = {}, None
+    for e in e_s.events_of("setitem"):
+        if strip_all(e["obj"]) != copy:
+            undecided = undecided or f"store into {show(e['obj'], 30)}"
+            continue
+        idx, val = strip(e["index"]), strip_all(e["value"])
+        if head(idx) == "list" and all(is_const(strip(x)) for x in idx[1]):
+            # frame[[c1, c2]] = self.helper(series): the helper returns a frame whose k-th column is read off its attribute stores
+            names = [strip(x)[2] for x in idx[1]]
+            hq = r.P.find_method(T + "TcrLevenshtein", val[1][2]) if head(val) == "call" and head(val[1]) == "attr" and val[1][1] == selft else None
+            if hq is None:
+                undecided = undecided or f"multi-column store of {show(val, 40)}"
+                continue
+            hs = r.A.summary(hq)
+            rep.analysed(hq)
+            bind = r.A.bind_call(hs, val, self_term=selft)
+            ret = strip_all(hs.ret)
+            hcols = dict(ret[3]).get("columns") if head(ret) == "call" and ret[1] == ("glob", "pandas.DataFrame") else None
+            attrs = {ev["name"]: strip_all(ev["value"]) for ev in hs.events_of("setattr") if strip_all(ev["obj"]) == ret}
+            if bind is None or hcols is None or head(hcols) != "list" or len(hcols[1]) != len(names) or not all(is_const(c) and c[2] in attrs for c in hcols[1]):
+                undecided = undecided or f"helper {hq.rsplit('.', 1)[1]} does not build a frame column by column"
+                continue
+            for nm, c in zip(names, hcols[1]):
+                colvals[nm] = subst(attrs[c[2]], bind)
+        elif is_const(idx) and isinstance(idx[2], str):
+            colvals[idx[2]] = val
+        else:
+            undecided = undecided or f"store with index {show(idx, 30)}"
+    if undecided:
+        rep.require(False, f"C09-CDR: {base}_expand_v_gene_cdrs: {undecided} is outside the idiom list; cannot decide")
+    else:
+        rep.ob("C09-CDR", base + "_expand_v_gene_cdrs", set(colvals) == {"CDR1A", "CDR2A", "CDR1B", "CDR2B"}, "exactly the four V-gene loop columns are added", w_e,
+               expected="CDR1A, CDR2A, CDR1B, CDR2B", found=", ".join(sorted(colvals)), key="expansion columns")
+        eqc = Equiv(rewrites=std_rewrites() + [canon_binders, col_access], modelled={".map"})
+        for nm in sorted(colvals):
+            gene, loop = ("TRAV" if nm.endswith("A") else "TRBV"), f"{nm[:4]}-IMGT"
+            lamid = ("#spec", nm)
+            want = ("call", ("attr", ("sub", copy, const(gene)), "map"),
+                    (("lam", lamid, (("v", None, "pos"),), ("call", ("attr", selft, "_get_cdr1_from_v_gene_if_possible"), (("lparam", lamid, "v"), const(loop)), ())),), ())
+            check_equiv(rep, "C09-CDR", base + "_expand_v_gene_cdrs", f"{nm} is the {loop} loop of the row's {gene} allele, cell by cell (Series.map), written to a copy", colvals[nm], want, w_e,
+                        eq=Equiv(rewrites=eqc.rewrites, modelled=eqc.modelled).bind(r, cls=T + "TcrLevenshtein"), key=f"expansion {nm}")
+    rep.ob("C09-CDR", base + "_expand_v_gene_cdrs", strip_all(e_s.ret) == copy, "the expanded copy is returned", w_e, expected="df.copy()", found=show(e_s.ret, 40), key="expansion result")
     # validation dominates
     compare_function(r, "C09-VAL", B + "TcrMetric.calc_cdist_matrix", SPEC, "non-standard anchors / comparisons raise ValueError", fname="base_cdist", eq=eqs, key="base cdist validation")
     compare_function(r, "C09-VAL", B + "TcrMetric.calc_pdist_vector", SPEC, "non-standard instances raise ValueError", fname="base_pdist", eq=eqs, key="base pdist validation")
@@ -202,7 +234,7 @@ def run(r):
                 raise AnalysisBroken(f"{mq}: parameter {p} vanished")
             hit = E.mut[mq].get(p)
             rep.ob("C09-PURE", mq, hit is None, f"the caller's table '{p}' is left unmodified", where_of(r.P, r.P.functions[mq], r.P.functions[mq].node), expected="no write", found=hit[0] if hit else "no write", key=f"pure {p}")
-    for rule, fl in (("C09-COL", 12), ("C09-WT", 20), ("C09-SUM", 1), ("C09-CDR", 4), ("C09-VAL", 5), ("C09-PV", 1), ("C09-PURE", 6)):
+    for rule, fl in (("C09-COL", 12), ("C09-WT", 20), ("C09-SUM", 1), ("C09-CDR", 6), ("C09-VAL", 5), ("C09-PV", 1), ("C09-PURE", 6)):
         rep.floor(rule, fl)
 
 
